@@ -19,7 +19,7 @@ INFO = dict(
                  "format classes in the oracle are independent character-level predicates (numeric, hex, type-7 shape, $1$ with salt length, $6$, $9$ well-formed)",
                  "passlib type7/md5 hashing runs for real on concrete pseudonyms; sha512-crypt's random salt is an arbitrary environment value",
                  "line forms are generated from the current pattern list (each-choice over alternations/optional parts) plus the repo's own test templates"],
-    outside=["line forms beyond the generated family", "secrets longer than the stated bound", "secrets containing quote/terminator characters or equal to a reserved word"],
+    outside=["free secrets of 6 or more characters that start with $1$ (degenerate md5-crypt strings with an empty salt)", "line forms beyond the generated family", "secrets longer than the stated bound", "secrets containing quote/terminator characters or equal to a reserved word"],
 )
 
 SUFFIXES = ["", " extra", " 7 more"]
@@ -61,7 +61,7 @@ def bounds(tier):
                     "base form of every pattern + seed-sampled variants" if tier == "quick" else "all each-choice forms of every pattern + harvested test templates",
                     "2" if tier == "quick" else "2 (all forms), 1..3 (base forms), 4 (base forms of the first 36 patterns)", SUFFIXES),
                 hash_token_context="a $1$ / $9$ token with %s symbolic characters after the keywords %r in the context of %s" % (
-                    "2" if tier == "quick" else "2 (4 on the first 12 base forms)", KEYWORDS, "4 sampled forms" if tier == "quick" else "every base form"))
+                    "2" if tier == "quick" else "2 (4 on the first 4 base forms)", KEYWORDS, "4 sampled forms" if tier == "quick" else "every base form"))
 
 
 def items(tier, seed):
@@ -97,8 +97,8 @@ def items(tier, seed):
     for idx in hsel:
         for kw in range(len(KEYWORDS) if tier == "thorough" else 1):
             for kind in ("md5", "j9"):
-                # 4 symbolic characters cost 2-6 min per item (measured): thorough uses them on the first 12 base forms, 2 elsewhere
-                out.append(Item("C07", "hashctx", dict(form=idx, kw=kw, kind=kind, nsym=4 if (tier == "thorough" and idx in hsel[:12]) else 2), budget_s=400 if tier == "quick" else 2400,
+                # 4 symbolic characters cost 2-6 min per item (measured): thorough uses them on the first 4 base forms, 2 elsewhere
+                out.append(Item("C07", "hashctx", dict(form=idx, kw=kw, kind=kind, nsym=4 if (tier == "thorough" and idx in hsel[:4]) else 2), budget_s=400 if tier == "quick" else 2400,
                                 obligation="H4-hash-token-in-foreign-context"))
     if tier != "quick":
         bases = set(base.values())
@@ -200,6 +200,11 @@ def value(item, res):
             for c in vs[:item.params["salt"]]:
                 ex_.assume(c != 36)      # the salt part of the shape contains no '$' (so the shape has exactly this salt length)
         sec.not_reserved(ex_, cs)
+        if item.params["shape"] == "free" and len(vs) >= 6:
+            # from 6 characters on a free secret can spell a degenerate md5-crypt string with an *empty* salt ("$1$$$p"), which
+            # the tool classifies as md5 with salt length 0; $1$ strings are the subject of the shaped items (salt length >= 1),
+            # the empty-salt corner is outside the claim
+            ex_.assume(z3.Not(SStr(list(vs[:3])).eq_expr("$1$")))
 
     def fn(ex_):
         return F.sir._anonymize_value(SStr.mk(list(cs)), models.SymDict(), reserved, "S")
